@@ -24,5 +24,6 @@ RULES = [
     ("C05.iter", lambda c, r: lfht.rule_iter(c, r, "C05.iter")),
     ("C05.chain", lambda c, r: lfht.rule_chain(c, r, "C05.chain")),
     ("C05.partition", lambda c, r: c09.rule_partition(c, r, "C05.partition")),
+    ("C05.unique", lambda c, r: lfht.rule_unique(c, r, "C05.unique")),
 ]
 FLOORS = {}
